@@ -6,8 +6,8 @@
      neg <n|c> <d|r> <w> <a>                                    -> <impl> <spec>
      abs <a>                                                    -> some:<v> | none
      sum <w> <x x ; x ; ..>                                     -> <ok:null|ok:v|err> <ok:null|ok:v|err>
-     decadd <n|c> <d|r> <64|128> <sub 0/1> <max64> <max128> <pow_i32 0/1> <d2d_validates 0/1> <opnd> <opnd>  -> <p> <s> <clamped> <impl> <spec>
-     decmul <n|c> <d|r> <64|128> <max64> <max128> <opnd> <opnd>            -> none | <p> <s> <clamped> <impl> <spec>
+     decadd <n|c> <d|r> <64|128> <sub 0/1> <max64> <max128> <pow_i32 0/1> <d2d_validates 0/1> <res_validates 0/1> <opnd> <opnd>  -> <p> <s> <clamped> <impl> <spec>
+     decmul <n|c> <d|r> <64|128> <max64> <max128> <res_validates 0/1> <opnd> <opnd>            -> none | <p> <s> <clamped> <impl> <spec>
         opnd = d:<p>:<s>:<unscaled> | i:<bits>:<v>
      round <64|128> <v> <k>                                     -> <outcome>
      sumdec <max64> <max128> <x x ; x ..>                       -> <ok:null|ok:v|err> <ok:null|ok:v|err>
@@ -66,20 +66,20 @@ let arith () =
        | "sum" :: w :: rest ->
          let parts = p_parts rest in
          Printf.printf "%s %s\n" (out_opt (sum_impl (zs w) parts)) (out_opt (sum_spec (zs w) parts))
-       | ["decadd"; st; m; k; sub; m64; m128; pw; dv; l; r] ->
-         let pp = { max64 = zs m64; max128 = zs m128; pow_i32 = (pw = "1"); d2d_validates = (dv = "1") } in
+       | ["decadd"; st; m; k; sub; m64; m128; pw; dv; rv; l; r] ->
+         let pp = { max64 = zs m64; max128 = zs m128; pow_i32 = (pw = "1"); d2d_validates = (dv = "1"); res_validates = (rv = "1") } in
          let (((p, s), exc), res) = dec_addsub pp (p_style st) (p_mode m) (p_kind k) (sub = "1") (p_operand l) (p_operand r) in
          Printf.printf "%s %s %s %s %s\n" (sz p) (sz s) (b01 exc) (out res)
            (out (spec_addsub pp (p_kind k) (sub = "1") (p_operand l) (p_operand r)))
-       | ["decmul"; st; m; k; m64; m128; l; r] ->
-         let pp = { max64 = zs m64; max128 = zs m128; pow_i32 = false; d2d_validates = true } in
+       | ["decmul"; st; m; k; m64; m128; rv; l; r] ->
+         let pp = { max64 = zs m64; max128 = zs m128; pow_i32 = false; d2d_validates = true; res_validates = (rv = "1") } in
          (match dec_mul pp (p_style st) (p_mode m) (p_kind k) (p_operand l) (p_operand r),
                 spec_mul pp (p_kind k) (p_operand l) (p_operand r) with
           | Some ((((p, s), cl), res)), Some sp -> Printf.printf "%s %s %s %s %s\n" (sz p) (sz s) (b01 cl) (out res) (out sp)
           | _ -> print_endline "none")
        | ["round"; k; v; d] -> print_endline (out (dec_round (p_kind k) (zs v) (zs d)))
        | "sumdec" :: m64 :: m128 :: rest ->
-         let pp = { max64 = zs m64; max128 = zs m128; pow_i32 = false; d2d_validates = true } in
+         let pp = { max64 = zs m64; max128 = zs m128; pow_i32 = false; d2d_validates = true; res_validates = true } in
          let parts = p_parts rest in
          Printf.printf "%s %s\n" (out_opt (sum_dec_impl parts)) (out_opt (sum_dec_spec pp parts))
        | "avgdec" :: m :: xs -> print_endline (out (avg_dec_acc (p_mode m) (List.map zs xs)))
